@@ -30,6 +30,24 @@ PLANS = {
     "C14": vm_plan(),
 }
 
+def codec_plan():
+    return {"quick": [vh("codec-release", "codec", "release", 1.0, timeout=600), vh("codec-dev", "codec", "dev", 0.1, timeout=600)],
+            "thorough": [vh("codec-release", "codec", "release", 1.0, timeout=3000), vh("codec-relchk", "codec", "relchk", 0.2, timeout=3000)]}
+
+
+PLANS["C13"] = codec_plan()
+PLANS["C15"] = codec_plan()
+for _t in ("quick", "thorough"):
+    PLANS["C14"][_t] = PLANS["C14"][_t] + [vh("codec-release", "codec", "release", 1.0, timeout=3000)]
+
+def simple_plan(engine, dev_scale=0.1):
+    return {"quick": [vh(engine + "-release", engine, "release", 1.0, timeout=600), vh(engine + "-dev", engine, "dev", dev_scale, timeout=600)],
+            "thorough": [vh(engine + "-release", engine, "release", 1.0, timeout=3000), vh(engine + "-relchk", engine, "relchk", 0.2, timeout=3000)]}
+
+
+PLANS["C17"] = simple_plan("formats")
+PLANS["C18"] = simple_plan("formats")
+
 # D11 witness runs in its own subprocess (C05 only)
 for tier in ("quick", "thorough"):
     PLANS["C05"][tier] = PLANS["C05"][tier] + [{"name": "d11-witness", "kind": "d11", "profile": "release"}]
@@ -78,7 +96,14 @@ FLOORS = {
     "C07": [("out-of-gas outcomes seen", counter_floor("outcome.err.out_of_gas", 50)),
             ("ok outcomes seen", counter_floor("outcome.ok", 50))],
     "C12": [("access and crypto ops executed", ops_floor(("Access(", "Crypto(")))],
-    "C14": [("mapped runs", counter_floor("mapped.runs", 1000))],
+    "C14": [("mapped runs", counter_floor("mapped.runs", 1000)), ("byte strings mapped", counter_floor("mapped.ok", 1000))],
+    "C17": [("permutations", counter_floor("permutations", 1000)), ("perturbations", counter_floor("perturbations", 1000))],
+    "C18": [("serde round trips", counter_floor("serde_roundtrips", 10000)), ("legacy names", counter_floor("legacy_names_accepted", 100)),
+            ("node_edges", counter_floor("node_edges_checked", 1000))],
+    "C13": [("valid strings", counter_floor("bytes.valid", 1000)), ("invalid-opcode strings", counter_floor("bytes.invalid_opcode", 100)),
+            ("truncated strings", counter_floor("bytes.truncated", 100)), ("short names", counter_floor("short_names_checked", 62))],
+    "C15": [("programs with effects", counter_floor("effects.programs_with_effects", 1000)),
+            ("all 64 effect sets seen", lambda m, tier: (len(m["sets"].get("effects.sets_seen", [])) == 64, "not all 64 effect combinations occurred"))],
 }
 
 VM_RULE = ("cases = (program, initial stack/memory/parent-memory/repeat state, solution data, pre/post state views, cost function, "
@@ -89,6 +114,20 @@ VM_RULE = ("cases = (program, initial stack/memory/parent-memory/repeat state, s
            "(bytecode, initial stack, initial memory, limit, repeat depth, child flag), counted across all shards and regimes.")
 
 RULES = {p: VM_RULE for p in ("C05", "C07", "C08", "C09", "C10", "C11", "C12", "C14")}
+CODEC_RULE = ("cases = byte strings: all 256 opcode bytes x immediate lengths, all 62x62 opcode pairs, Push immediates with walking bits and with every "
+              "opcode byte at every position (these three sub-spaces exhaustively), random programs over all ops with hostile immediates, all their "
+              "truncations, single bit flips and raw random bytes. Non-trivial = yields at least one op before the end/error (>= 2 ops when valid); "
+              "distinct = distinct byte string (FNV hash), counted across shards.")
+RULES["C17"] = ("one round = a random predicate, program, contract, solution and solution set (every 50th round at the limits: 1000 nodes/edges, 100 predicates, "
+               "100 solutions), each with a random permutation and a single-field / near-collision perturbation; all pre-hash byte strings of a run are bucketed "
+               "to look for two distinct values hashing the same bytes. Non-trivial = predicate with >= 2 nodes+edges, contract with >= 2 predicates, every solution; "
+               "distinct by pre-hash bytes.")
+RULES["C18"] = ("one round = a random predicate (wire codec + node_edges for every index and two beyond), a mutation list, words/bytes/hex, 32/64/65-byte arrays, "
+               "Display/FromStr, JSON and postcard round trips of the ten public types, legacy field names. Non-trivial = predicate with >= 2 nodes or non-empty "
+               "mutation list; distinct by encoding.")
+RULES["C13"] = CODEC_RULE
+RULES["C15"] = CODEC_RULE
+RULES["C14"] = VM_RULE + " Plus the codec stage: " + CODEC_RULE
 
 ASSUMPTIONS = {
     "*": ["rustc/std, rayon, serde_json are trusted", "the reference models and the tolerances of DESIGN.md section 6",
